@@ -1607,6 +1607,14 @@ class MEDDLY::forest {
         /// Mark all registered dd_edges.
         void markAllRoots();
 
+#ifdef MEDDLY_VERIF_HOOKS
+        /// Verification hook (read-only): node handles of all registered
+        /// root edges, in registry order.
+        void verif_enumRoots(std::vector<node_handle> &out) const;
+        /// Verification hook (read-only): cache count of a node.
+        unsigned long verif_cacheCount(node_handle p) const;
+#endif
+
     // ------------------------------------------------------------
     private: // Private methods for root edge registry
     // ------------------------------------------------------------
